@@ -17,19 +17,21 @@ From GV Require Import Lib.Str Gen.Facts Gen.FactsC20 Model.Plugin Proofs.C20Pro
 Import ListNotations.
 Open Scope Z_scope.
 
-(* (0) the literals the model is instantiated with are the ones in the source (Gen.FactsC20 is
-   regenerated from /repo on every run, so editing a literal in plugin/main.py breaks this proof) *)
-Theorem C20_source_facts :
-  strip_suffixes = [s2z ".protodevel"; s2z ".proto"] /\
-  base_replacements = [(45, 95); (47, 46)] /\                    (* '-' -> '_', '/' -> '.' *)
-  pb2_suffix = s2z "_pb2" /\ grpc_suffix = s2z "_grpc" /\
-  out_replace = (46, 47) /\ out_suffix = s2z ".py" /\
-  route_format = s2z "/{}/{}" /\ qual_format = s2z "{}.{}".
-Proof. exact source_facts. Qed.
-Print Assumptions C20_source_facts.
+(* (0) the model agrees with the REAL plugin on the probes: Gen.FactsC20 holds what main() of the
+   repository under test answered, on this run, for 30 file paths (pb2 module imported by the generated
+   code, output file name) and for the routes of 120 RPCs (Base mapping and Stub, packages empty /
+   single / dotted).  A changed suffix, replacement, route shape ... changes the table and breaks this
+   proof; a refactoring that keeps the behaviour keeps the table. *)
+Theorem C20_source_probes :
+  forallb names_agree names_probe = true /\ forallb route_agrees route_probe = true /\
+  Nat.leb 20 (List.length names_probe) = true /\ Nat.leb 40 (List.length route_probe) = true /\
+  existsb (fun r => negb (nonempty (fst (fst r)))) route_probe = true.
+Proof. exact source_probes. Qed.
+Print Assumptions C20_source_probes.
 
-(* (1) the cardinality tables: _CARDINALITY is total, each member means the flags it is stored under
-   (const.Cardinality), render picks a client class for it, and that class carries the same member *)
+(* (1) the cardinality tables (observed over their complete finite domains): the flags lookup of
+   main() is total, each member means the flags it is found under (const.Cardinality), render picks a
+   client class for it, and that class opens streams with the same member *)
 Theorem C20_cardinality_tables :
   forall cs ss, exists c cls,
     cardinality_of cs ss = Some c /\ member_flags c = Some (cs, ss) /\
